@@ -30,7 +30,16 @@ def run(R):
         h = ac.one_history(R, rounds, key, nonce, aad, pt, "enc")
         enc.append(h)
         meta[h["id"]] = (rounds, key, nonce, aad)
+    # tuples whose ciphertext drives the tag computation through the rare carry / select classes of the Poly1305 limb code (see aeadcommon.crafted_cases)
+    crafted = [] if R.collect else ac.crafted_cases(R, 3 if thorough else 1, "c07")
+    light = set()
+    for (rounds, key, nonce, aad, pt, cls, otk, macdata) in crafted:
+        h = ac.one_history(R, rounds, key, nonce, aad, pt, "enc")
+        enc.append(h)
+        meta[h["id"]] = (rounds, key, nonce, aad)
+        light.add(h["id"])
     res = R.conform("TraceAead", enc, cost=ac.cost_aead, describe=ac.describe, label="TraceAead.valid")
+    ac.confirm_crafted(R, crafted)
     dec = []
 
     def add(rounds, key, nonce, aad, ct, tag, label):
@@ -45,6 +54,11 @@ def run(R):
         o = r["ev"][1]["out"]["v"]
         ct, tag = o[:len(o) - 16], o[len(o) - 16:]
         add(rounds, key, nonce, aad, ct, tag, "valid%d" % bi)
+        if r["id"] in light:               # crafted tuples: the valid tuple, a few tag bits, one ciphertext bit in the crafted blocks
+            for i in R.rng.sample(range(128), 3) + [0, 127]:
+                add(rounds, key, nonce, aad, ct, flip(tag, i), "crafted-tagbit%d/%d" % (bi, i))
+            add(rounds, key, nonce, aad, flip(ct, 8 * len(ct) - 1), tag, "crafted-ctbit%d" % bi)
+            continue
         # every bit of the tag (first base: all 128; others: sampled in quick)
         bits = range(128) if (bi == 0 or thorough) else sorted(R.rng.sample(range(128), 12))
         for i in bits:
